@@ -287,7 +287,7 @@ def gen_cases(rng, tier):
     cases.extend(exhaustive_core(tier))
     pts = structural_space(tier)
     if tier == 'quick':
-        chosen = [rng.choice(pts) for _ in range(2600)]
+        chosen = [p for p in pts if p[0] == ()] + [rng.choice(pts) for _ in range(5000)]
         nmask = 1
     else:
         chosen = pts
@@ -317,7 +317,7 @@ def gen_cases(rng, tier):
                 builtins = True
             cases.append(make_red_case(rng, shape, op, axis, legal, dtype, pat, cls, derivs,
                                        builtins, value))
-    nmm = 500 if tier == 'quick' else 6000
+    nmm = 1200 if tier == 'quick' else 6000
     for _ in range(nmm):
         shapes = rng.choice(MM_SHAPES)
         kindsel = rng.random()
@@ -853,6 +853,8 @@ def signature(c, res, aspect):
     if c['kind'] != 'mm':
         sig['cls'] = c['cls']
         sig['zero_size'] = prod(c['shape']) == 0
+        sig['rank'] = len(c['shape'])
+        sig['axis_legal'] = norm_axes(len(c['shape']), c['axis'], c.get('axis_tuple', False)) is not None
         sig['axis_none'] = c['axis'] is None
         sig['builtins'] = bool(c.get('builtins'))
         ref = res.get('ref') or {}
@@ -877,7 +879,7 @@ def load_proposed(ctx):
 
 def run(ctx):
     Pm = P()
-    load_proposed(ctx)
+    # (proposed findings are merged into known_findings.jsonl at integration; nothing is loaded here)
     ctx.rule = ('structural space = all 156 leading shapes of rank<=3 with axis lengths 0-4 x '
                 '{sum mean max min argmax argmin median any all sort} x every axis argument '
                 '(None, each +-int, every tuple of distinct axes incl. negative/permuted forms and (), '
@@ -885,7 +887,7 @@ def run(ctx):
                 '(int/float, ties, +-inf / int64 extremes for order operations) and mask pattern '
                 '(False True all-False all-True mixed broadcast-view whole-slices one-unmasked '
                 'single-masked); quick = exhaustive 1-D core (length<=3 over 4 values x masked) + '
-                '2600 seeded points of the same space; Vector/Pair/Matrix item-wise sum/mean, '
+                'all shape-() points + 5000 seeded points of the same space; Vector/Pair/Matrix item-wise sum/mean, '
                 'derivatives (with the parent mask), Boolean.sum, builtins=True, '
                 'Scalar.maximum/minimum with 1-3 broadcastable candidates; non-trivial = at least '
                 'one masked operand element')
